@@ -91,16 +91,63 @@ def _run(ctx):
 
 
 def run_cases_robust(ctx, name, header, exprs, shard, vos):
-    """ctx.run_cases, tolerant of another check rebuilding Generated.vo in between (the .vo files are
-    shared): rebuild the model right before evaluating and retry when Coq reports stale dependencies."""
-    for attempt in range(3):
-        core.coq_make(vos)
-        try:
-            return ctx.run_cases(name, header, exprs, shard=shard)
-        except core.CheckError as e:
-            if "inconsistent assumptions" in str(e) and attempt < 2:
-                continue
-            raise
+    """Like ctx.run_cases, but evaluated against a private snapshot of the compiled model.
+
+    The .vo files under coq/theories are shared by all checks; a concurrent check that regenerates
+    Generated.v (e.g. a run against another VERIF_REPO) recompiles Generated.vo and makes every dependent
+    .vo stale in the middle of a long evaluation ("makes inconsistent assumptions").  So: build `vos`,
+    copy them together with Generated.vo into the scratch directory while holding the build lock, check the
+    snapshot loads, and evaluate all case shards with `-Q <snapshot> WF`."""
+    import os
+    import re
+    import shutil
+    from concurrent.futures import ThreadPoolExecutor
+    if not exprs:
+        return []
+    snap = os.path.join(ctx.scratch, "snap_" + re.sub(r"\W", "_", name))
+    probe = os.path.join(ctx.scratch, "snap_probe_%s.v" % re.sub(r"\W", "_", name))
+    mods = [v[len("theories/"):-3].replace("/", ".") for v in vos]
+    for attempt in range(6):
+        ok, out = core.coq_make(vos)
+        if not ok:
+            raise core.CheckError("cannot build %s:\n%s" % (vos, out[-2000:]))
+        shutil.rmtree(snap, ignore_errors=True)
+        with core.coq_lock():
+            for rel in ["theories/Generated.vo"] + list(vos):
+                dst = os.path.join(snap, rel[len("theories/"):])
+                os.makedirs(os.path.dirname(dst), exist_ok=True)
+                shutil.copy(os.path.join(core.COQ, rel), dst)
+        with open(probe, "w") as f:
+            f.write("From WF Require Import %s.\n" % " ".join(mods))
+        rc, out = core.sh(["timeout", "300", "coqc", "-Q", snap, "WF", "-o", probe[:-2] + ".vo", probe], cwd=ctx.scratch)
+        if rc == 0:
+            break
+    else:
+        raise core.CheckError("could not obtain a consistent snapshot of %s:\n%s" % (vos, out[-2000:]))
+    d = os.path.join(ctx.scratch, "cases_" + re.sub(r"\W", "_", name))
+    os.makedirs(d, exist_ok=True)
+    files = []
+    for k in range(0, len(exprs), shard):
+        fn = os.path.join(d, "c%d.v" % (k // shard))
+        with open(fn, "w") as f:
+            f.write(header + "\n")
+            f.write("Definition results : list Z := %s.\n" % core.glist("(%s)" % e for e in exprs[k:k + shard]))
+            f.write("Eval vm_compute in results.\n")
+        files.append(fn)
+
+    def one(fn):
+        rc, out = core.sh(["timeout", "900", "coqc", "-Q", snap, "WF", "-o", fn[:-2] + ".vo", fn], cwd=ctx.scratch,
+                          timeout=930)
+        if rc != 0:
+            raise core.CheckError("case file failed to evaluate (%s):\n%s" % (fn, out[-3000:]))
+        return core.parse_zlist(out)
+
+    with ThreadPoolExecutor(max_workers=core.NPROC) as ex:
+        parts = list(ex.map(one, files))
+    res = [z for part in parts for z in part]
+    if len(res) != len(exprs):
+        raise core.CheckError("case count mismatch in %s: %d vs %d" % (name, len(res), len(exprs)))
+    return res
 
 
 def replay(ctx, path):
